@@ -12,7 +12,7 @@ import warnings
 import numpy as np
 
 from ..sched import HarnessError, SchedConfig, Violation
-from ..simdask import SimClient, SimExecutor, patched_dask_uuid
+from ..simdask import SimClient, SimExecutor, StubLimit, patched_dask_uuid, patched_distributed_api, through_distributed
 from ..workload import (
     build_cv,
     build_estimator,
@@ -249,6 +249,9 @@ def call_verde(fn, must_succeed, where):
     except (Violation, HarnessError):
         raise
     except Exception as e:  # noqa: B902
+        if through_distributed(e):
+            # the code under test reached into the real distributed package with our stub client/futures
+            raise StubLimit(f"{where}: {type(e).__name__}: {str(e)[:200]}") from e
         if must_succeed:
             raise Violation(
                 "unexpected-exception", f"{where}: raised {type(e).__name__}: {str(e)[:300]}"
@@ -789,7 +792,7 @@ def run(tape, opts=None):
     if (opts or {}).get("tier") == "thorough" and tape.coin(0.04, "kill_enum"):
         op = "kill_enum"
     try:
-        with patched_dask_uuid():
+        with patched_dask_uuid(), patched_distributed_api():
             if op == "kill_enum":
                 run_kill_enumeration(tape, stats)
             elif op == "cvs":
@@ -805,6 +808,10 @@ def run(tape, opts=None):
         raise
     except ArgumentsChanged:
         stats["probes"]["argument_arrays_changed_not_judged_here"] = 1
+    except StubLimit:
+        stats["probes"]["client_stub_api_limit_no_claim"] = 1
+        if stats.get("ex") is not None:
+            stats["ex"].sched.shutdown()
     return finish(stats, op)
 
 
